@@ -18,7 +18,7 @@ B(b) == IF b THEN "1" ELSE "0"
 \* recorded list tuple <<src, peer, dst, act, prec>> -> intention of the spec
 AbsI(t) == [src |-> t[1], peer |-> t[2], dst |-> t[3], act |-> t[4]]
 AbsL(q) == [k \in DOMAIN q |-> AbsI(q[k])]
-AbsOp(o) == [op |-> o.op, ixn |-> [src |-> o.ixn.src, peer |-> o.ixn.peer, dst |-> o.ixn.dst, act |-> o.ixn.act]]
+AbsOp(o) == [op |-> o.op, id |-> o.id, ixn |-> [src |-> o.ixn.src, peer |-> o.ixn.peer, dst |-> o.ixn.dst, act |-> o.ixn.act]]
 AbsH(h) == [k \in DOMAIN h |-> AbsOp(h[k])]
 
 ObsOf(e, r) == IF "same" \in DOMAIN e.runs[r] THEN e.runs[e.runs[r].same].obs ELSE e.runs[r].obs
@@ -58,15 +58,26 @@ JudgeObs(rep, I, o) ==
                hit == IF x[2] = "source" THEN SrcMatches(i, [name |-> x[3], peer |-> x[4]]) ELSE DstMatches(i, x[3])
            IN x[5] = hit /\ (hit => x[6] = (i.act = "allow")))
 
-\* every write of the history is one the representation can hold, and the store accepted it
+\* the set a history denotes: name-keyed writes fold over the set, identity-addressed writes over [id, ixn]
+Denoted(rep, h) == IF rep \in IdReps THEN SetOf(IdFold({}, h)) ELSE Fold({}, h)
+
+\* every write of the history that the representation can hold is accepted by the store; an
+\* identity-addressed write is accepted exactly when the spec accepts it (no such identity / key taken = refused)
+RECURSIVE IdWritesOK(_, _, _, _)
+IdWritesOK(J, h, werr, k) ==
+  IF k > Len(h) THEN TRUE
+  ELSE /\ \/ h[k].op = "remove" /\ ~IdAccepts(J, h[k])        \* removing an unknown identity: silent (not specified)
+          \/ werr[k] = ~IdAccepts(J, h[k])
+       /\ IdWritesOK(IdApply(J, h[k]), h, werr, k + 1)
 WritesOK(rep, run) ==
-  \A k \in DOMAIN run.hist : Representable(rep, AbsOp(run.hist[k]).ixn) => ~run.werr[k]
+  IF rep \in IdReps THEN IdWritesOK({}, AbsH(run.hist), run.werr, 1)
+  ELSE \A k \in DOMAIN run.hist : Representable(rep, AbsOp(run.hist[k]).ixn) => ~run.werr[k]
 
 Verdict(i) ==
   LET e == Trace[i]
       R == DOMAIN e.runs
       \* distinct (denoted set, recorded answers) pairs of the group
-      cases == {<<Fold({}, AbsH(e.runs[r].hist)), ObsOf(e, r)>> : r \in R}
+      cases == {<<Denoted(e.rep, AbsH(e.runs[r].hist)), ObsOf(e, r)>> : r \in R}
   IN
      UNION {JudgeObs(e.rep, c[1], c[2]) : c \in cases}
   \cup F("write-accepted", \A r \in R : WritesOK(e.rep, e.runs[r]))
